@@ -259,7 +259,11 @@ TABLE = {
              "comparing chain, value pointer/storage, use_count, suspend point and queue contents, per-listener received values and states, "
              "callback ctor/dtor and allocation balance, and each thread's pending operation after every step. SignalFine.tla repeats the "
              "concurrent model at the finest replayable grain (each atomic operation and the plain code following it as separate steps; "
-             "invariant HandleSetBeforePublication) for 1 collector + 1-2 arriving listener threads, replayed under vsched yield_after.",
+             "invariant HandleSetBeforePublication) for 1 collector + 1-2 arriving listener threads, replayed under vsched yield_after. "
+             "The listener/collector pair may also come from signal::hook_up(fn): Signal.tla action HookUp models the first co_await creating "
+             "the signal, subscribing the coroutine BEFORE the registration function runs, and fn emitting 0..k values through the collector and "
+             "storing or dropping it (every registration value is due to the listener); SignalConc/SignalFine model fn handing the collector to "
+             "the collector thread, which emits while fn is still running; all replayed on real signal<int>/<void> hook_up objects.",
         note="bounds: <=3 listeners, <=4 emits (sequential), 1 collector + <=3 listener threads + <=2 pre-subscribed, <=3 emits (concurrent), int/void; "
              "finest grain: <=3 listeners (thorough), 1-2 emits; "
              "delivery properties claimed only for the documented discipline (suspend point released and listeners run before the next call / last "
